@@ -449,7 +449,7 @@ func (g *gen) simple(d int) string {
 		return g.pick(
 			"_ = Map[int, string](xs, func(i int) string { return "+g.se(1)+" })",
 			"_ = Map(xs, func(i int) int { return i })",
-			"var "+g.fresh("l")+" List[int]\n_ = Pair[string, List[int]]{}",
+			"{\nvar lx List[int]\n_, _ = lx, Pair[string, List[int]]{}\n}",
 			"(&Pair[string, int]{}).Set("+g.se(1)+", "+g.ie(1)+")",
 			"_ = Sum[float64]",
 			"_ = (*List[Pair[int, string]]).Len",
@@ -463,7 +463,7 @@ func (g *gen) simple(d int) string {
 		return "if " + g.be(d) + " {\n}"
 	case 23:
 		g.hit("index_stmt_start")
-		return g.pick("[]int{1}[0]++", "map[string]int{}[\"a\"]++", "[]func(){func() {}}[0]()", "struct{ f func() }{func() {}}.f()", "(*t).a = 1", "(t).p.a = 2", "[2]int{}[1]++; _ = a")
+		return g.pick("[]int{1}[0]++", "map[string]int{}[\"a\"]++", "[]func(){func() {}}[0]()", "struct{ f func() }{func() {}}.f()", "(*t).a = 1", "(t).p.a = 2", "(&[2]int{})[1]++; _ = a")
 	case 24:
 		return "_ = " + g.be(d)
 	case 25:
@@ -525,7 +525,7 @@ func (g *gen) topDecl() string {
 		return "type " + n + " = [4][2]*[]map[[2]int]func() [3]chan int"
 	case 10:
 		g.hit("top_const_typed")
-		return "const " + n + " float64 = 1 << 3 / 2.0\n\nvar _ = " + n + " + 'a'*1i - 0x10p-2"
+		return "const " + n + " float64 = 1 << 3 / 2.0\n\nvar _ = complex(" + n + ", 1) + 'a'*1i - 0x10p-2"
 	}
 	g.hit("top_empty_iface")
 	return "type " + n + " interface{}\n\ntype " + n + "s struct{}\n\nvar _ " + n + " = " + n + "s{}"
